@@ -210,6 +210,8 @@ class Model:
             for name, h in ci.methods.items():
                 if not name.startswith('_') or name.startswith('__') or h.vararg or h.kwarg or h.kind == 'property':
                     continue
+                if any(dotted_name(d_) not in ('classmethod', 'staticmethod') for d_ in h.node.decorator_list):
+                    continue        # a decorator (cache, wrapper) changes what a call means
                 if name in frozen:
                     continue
                 body = list(h.node.body)
@@ -268,6 +270,8 @@ class Model:
             name = h.name
             if not name.startswith('_') or name.startswith('__') or h.vararg or h.kwarg or h.generated:
                 return
+            if h.node.decorator_list:
+                return          # a decorator (cache, wrapper) changes what a call means
             if name in frozen:
                 return
             body = list(h.node.body)
